@@ -41,6 +41,13 @@ def norm_export(d):
 
     def walk(x):
         if isinstance(x, dict):
+            entries = [v for v in x.values() if isinstance(v, dict) and "direct_children_with_id" in v and "id" in v]
+            if len(entries) >= 2 and len(entries) == len(x) and len({v["id"] for v in entries}) == 1:
+                # entries of one per-pattern dict share one id and are ONE node of the graph: which entry an edge is registered on
+                # depends on iteration order, so every entry is given the union of the node's edges
+                for key in ("direct_ancestors_with_id", "direct_children_with_id"):
+                    union = sorted({e for v in entries for e in v[key]})
+                    x = {k: dict(v, **{key: union}) for k, v in x.items()}
             return {k: (sorted(e for e in v if keep(e)) if k in ("direct_ancestors_with_id", "direct_children_with_id") else walk(v)) for k, v in x.items()
                     if not (isinstance(v, dict) and v.get("value", 0) is None and set(v) <= {"label", "value", "id", "direct_ancestors_with_id", "direct_children_with_id"} and False)}
         if isinstance(x, list):
@@ -165,9 +172,26 @@ def run_case(case):
             V.append({"kind": "re-export of the loaded system differs from the first export", "first_differences": diffs[:3], **ctx}); break
         if mode is True:
             # with calculated attributes the hourly results are recomputed from rounded inputs: compare structure (keys, ids, edge multisets)
+            # A value that is empty ("value": null) carries no number; whether it is the constructor's default or the result of
+            # an update rule run on empty operands depends on whether the object was ever in a computation chain (a network whose
+            # pattern lost all its jobs keeps a computed empty value, a freshly loaded one is never computed): such nodes and
+            # the edges to them are left out of the structural comparison.
+            empties = set()
+
+            def find_empty(x):
+                if isinstance(x, dict):
+                    if "id" in x and "direct_children_with_id" in x and x.get("value", 0) is None and "unit" not in x:
+                        empties.add(x["id"])
+                    for v in x.values():
+                        find_empty(v)
+            find_empty(a); find_empty(b)
+
             def skeleton(x):
                 if isinstance(x, dict):
-                    return {k: skeleton(v) for k, v in x.items() if k not in ("values", "value")}
+                    if x.get("id") in empties and "direct_children_with_id" in x:
+                        return {"id": x["id"]}
+                    return {k: ([e for e in v if e not in empties] if k in ("direct_ancestors_with_id", "direct_children_with_id") else skeleton(v))
+                            for k, v in x.items() if k not in ("values", "value")}
                 if isinstance(x, list):
                     return [skeleton(v) for v in x]
                 return x
